@@ -70,7 +70,7 @@ var (
 func concrete(n, cls string, k int) string {
 	r := *seed + k
 	switch cls {
-	case "plain", "empty":
+	case "plain", "empty", "star":
 		return n
 	case "ws":
 		return wsReps[r%len(wsReps)]
@@ -188,6 +188,13 @@ func pipeName(f string, style int) string {
 		}
 	}
 	if bare && style%4 != 3 {
+		return f
+	}
+	if strings.Contains(f, "*") && !strings.ContainsAny(f, "\\\"'`") && style%2 == 0 {
+		// the asterisks as they are: the lexer reads them as wildcard marks and the pipe turns them back into characters
+		if style%4 == 0 {
+			return `"` + f + `"`
+		}
 		return f
 	}
 	special := strings.ContainsAny(f, "\\\"'`*")
